@@ -32,6 +32,12 @@ CLAIMS = {
         note="Trusted: http.cookies._unquote contract (re-stated in the checker), str.strip/split semantics, strftime %a/%b under the C locale.",
         ref="DESIGN.md section 3, C16",
     ),
+    "C05": dict(
+        technique="static analysis: typestate (protocol automaton) in product with a path-sensitive AST dataflow of every response __call__, helpers and closures inlined; header-name provenance; constant scans; taint of file-name text",
+        text="For every concrete response class (9 ASGI, 9 WSGI, found from the class table) the emit sequence is checked against the gateway grammar on ALL paths of __call__ with handle_*, render_stream and the sendfile closures inlined: ASGI start, body*(more_body true), one final body, nothing after, every normal exit after the final body and every exceptional exit a legal prefix; WSGI start_response exactly once before the first body, 'NNN reason' status from the table with its unknown-code fallback, header list from list_headers or the range-exception constants, every yielded expression bytes-typed. Also decided: lower-case byte header names on every ASGI start (incl. the 416 error path), no hop-by-hop header constant on WSGI paths, file-name text percent-encoded before it enters a header (known finding F9). Not decided: user-supplied header values and iterables (trusted by annotation).",
+        note="A send()/start_response call that raises is modelled as not having delivered its event. more_body must be a decidable constant on each path (otherwise UNDECIDED). Inlining bound 5.",
+        ref="DESIGN.md section 3, C05",
+    ),
 }
 
 NOT_APPLICABLE = {
